@@ -211,4 +211,70 @@ def runSeq (limit : Nat) (d : Dir) (k : Nat) : List (Option Nat) :=
 
 end FS
 
+/-! ### readers-writer lock (sync.RWMutex) -/
+namespace RW
+
+/-- what a thread does with the one variable guarded by the RWMutex -/
+inductive Op (σ : Type) where
+  /-- `mu.Lock(); body; mu.Unlock()` — the body is a sequence of atomic updates (non-atomic as a whole) -/
+  | write (body : List (σ → σ))
+  /-- `mu.RLock(); x := v; mu.RUnlock()` -/
+  | read
+
+inductive TS (σ : Type) where
+  | idle (rest : List (Op σ))
+  | writing (todo : List (σ → σ)) (rest : List (Op σ))  -- holds the write lock
+  | reading (rest : List (Op σ))                          -- holds the read lock, has not read yet
+  | readDone (rest : List (Op σ))                         -- holds the read lock, has read
+
+structure State (σ : Type) where
+  val  : σ
+  ts   : List (TS σ)
+  obs  : List (Nat × σ)          -- (thread, value it read), most recent first
+  wlog : List (List (σ → σ))     -- write bodies in the order their Lock succeeded, most recent first
+
+def TS.isIdle {σ} : TS σ → Bool
+  | .idle _ => true
+  | _ => false
+
+def TS.isWriting {σ} : TS σ → Bool
+  | .writing _ _ => true
+  | _ => false
+
+def TS.finished {σ} : TS σ → Bool
+  | .idle [] => true
+  | _ => false
+
+def State.terminated {σ} (s : State σ) : Bool := s.ts.all TS.finished
+
+def start {σ} (x0 : σ) (prog : List (List (Op σ))) : State σ := ⟨x0, prog.map .idle, [], []⟩
+
+/-- One step of thread `i`.  `Lock` succeeds only when nobody holds the lock in any mode, `RLock`
+only when nobody holds it for writing (readers may overlap). -/
+def step {σ} (s : State σ) (i : Nat) : Option (State σ) :=
+  match s.ts[i]? with
+  | some (.idle (.write body :: rest)) =>
+    if s.ts.all TS.isIdle then some { s with ts := s.ts.set i (.writing body rest), wlog := body :: s.wlog } else none
+  | some (.idle (.read :: rest)) =>
+    if s.ts.all (fun t => !t.isWriting) then some { s with ts := s.ts.set i (.reading rest) } else none
+  | some (.writing (f :: todo) rest) => some { s with val := f s.val, ts := s.ts.set i (.writing todo rest) }
+  | some (.writing [] rest) => some { s with ts := s.ts.set i (.idle rest) }
+  | some (.reading rest) => some { s with ts := s.ts.set i (.readDone rest), obs := (i, s.val) :: s.obs }
+  | some (.readDone rest) => some { s with ts := s.ts.set i (.idle rest) }
+  | _ => none
+
+def exec {σ} (s : State σ) : List Nat → Option (State σ)
+  | [] => some s
+  | i :: is =>
+    match step s i with
+    | none => none
+    | some s1 => exec s1 is
+
+def applyAll {σ} (fs : List (σ → σ)) (x : σ) : σ := fs.foldl (fun x f => f x) x
+
+/-- the value after the write sections `ws` (OLDEST first) ran one after the other, uninterrupted -/
+def runWrites {σ} (ws : List (List (σ → σ))) (x : σ) : σ := ws.foldl (fun x b => applyAll b x) x
+
+end RW
+
 end PV.Conc
